@@ -7,5 +7,5 @@ Set Extraction KeepSingleton.
 Extraction "model_eq.ml"
   Z.add Z.sub Z.mul Z.div Z.modulo Z.abs Z.opp Z.leb Z.ltb Z.eqb Z.of_nat Z.to_nat Z.of_N Z.to_N
   errno jv
-  jv_equal jv_equal_root nan_free d_decode deep_copy deep_copy_root mutate_at run_history deep_copy_cb deep_copy_cb_root cb_default mt_copy mt_nodes key_stores mem_addrs mt_erase kbuf_write borrowed
+  jv_equal jv_equal_root nan_free d_decode deep_copy deep_copy_root mutate_at run_history deep_copy_cb deep_copy_cb_root cb_default mt_copy mt_nodes key_stores mem_addrs mt_erase kbuf_write borrowed copy_uanns ud_stores ubuf_write unreleased
   nt_equal build nt_copy addrs erase node_count.
